@@ -278,7 +278,7 @@ func genDhfrag(emit func(string), tier string, rng *Rng) {
 	thorough := tier == "thorough"
 	n, maxLen := 260, 4000
 	if thorough {
-		n, maxLen = 800, 20000
+		n, maxLen = 450, 12000
 	}
 	pool, kinds := fragInputs(rng, n, maxLen)
 	// chains of several sequences: histories that consume one sequence per call need them
@@ -385,7 +385,7 @@ func genRawFrag(emit func(string), tier string, rng *Rng) {
 	thorough := tier == "thorough"
 	ns, maxL := 70, 300
 	if thorough {
-		ns, maxL = 400, 700
+		ns, maxL = 160, 500
 	}
 	one := func(b []byte, cs []rdrChunk) { emit(fragOp("rawfrag", 1, "", b, rbLens(cs))) }
 	for i := 0; i < ns; i++ {
@@ -419,7 +419,7 @@ func genRawFrag(emit func(string), tier string, rng *Rng) {
 	// larger inputs (fixtures, encoder outputs, record streams, mutated, truncated): a few schedules each
 	n := 120
 	if thorough {
-		n = 1500
+		n = 500
 	}
 	pool, kinds := fragInputs(rng, n, 6000)
 	for i, b := range pool {
